@@ -8,6 +8,17 @@ TB = ("Trusted: Lean 4.33 kernel; axioms propext, Classical.choice, Quot.sound (
 
 # id -> (category, technique, text, note, design_ref)
 CHECKS = {
+    "C12": ("proof", "Lean 4 proof of the byte-exact encoder/decoder model (round trip, prefix-freeness, hash binding, in-bounds accesses) + byte-exact correspondence with mir-reduce.h under ASan/UBSan/MSan",
+            "PROVED for every byte string of every length (multi-buffer included): decode (encode d) = d for the exact model of _reduce_encode_buf (hash-table dictionary, eviction, MAX_SYMB_LEN flush); "
+            "any valid parse decodes to its data; the accepted language is prefix-free (every truncation and extension of an accepted stream is rejected); an accepted stream carries the chain hash of its "
+            "decoded data; no decoder access is out of bounds. Constants regenerated from mir-reduce.h. Correspondence: encoder bytes C vs model, both decoders on arbitrary/corrupted streams "
+            "(exhaustive over {a,b}^<=10/12 with all single-byte corruptions, truncations and extensions; multi-buffer sizes), three sanitizer flavours.",
+            TB + " Hash collision resistance is not claimed (accepted_hash states what an accepted stream must satisfy).", "4 C12"),
+    "C19": ("proof", "Lean 4 refinement proofs (HTAB = abstract map incl. termination of probing, bitmap = set algebra incl. change flag and aliasing, VARR/DLIST = lists) + exhaustive and random correspondence on the real headers",
+            "PROVED for every operation history: bitmap operations yield the set-algebra result and report 'changed' exactly when the destination changed (also for aliased operands), the iterator yields the members "
+            "once in increasing order, VARR and DLIST preserve contents and order with the list invariants; HTAB part: see Props/C19/Htab.lean. Correspondence: real headers under ASan+UBSan and NDEBUG, "
+            "exhaustive short sequences over small universes plus long random histories, colliding hash functions, free-function counts.",
+            TB, "4 C19"),
     "C01": ("proof", "Lean 4 theorems about the optimizer's tables and rewrites (regenerated from mir-gen.c/mir.c) + differential execution of random well-defined programs across interpreter and -O0..-O3",
             "PROVED for all operand values: GVN constant folding = interpreter macro = documented result for every integer opcode; the folder never evaluates a "
             "trapping division; MIR_reverse_branch_code, get_combined_br_code and commutative_insn_code are sound for every integer row; mul/udiv/div by 2^k = "
